@@ -712,4 +712,15 @@ def collinearity_scale_free(repo: Repo, prop: str = PROP, rule: str = "C08.COLLI
 collinearity_scale_free.rule_id = "C08.COLLINEARITY-SCALE-FREE"
 
 
-RULES = [trig_domain, arg_pairing, affine_kinds, sign_flows, circumcentre, reflex_decision, reflex_midpoint, adjust_only_when_needed, validity_tolerance, no_memo, edge_ends, arguments_untouched, collinearity_scale_free]
+def beam_list(repo: Repo) -> RuleRun:
+    """'every arc ... is written': one specification object given to two edges of an operation yields two edges. Same rule as C07.BEAM-LIST."""
+    from ..report import rebrand
+    from . import c07
+
+    return rebrand(c07.beam_list(repo), PROP, "C08.BEAM-LIST")
+
+
+beam_list.rule_id = "C08.BEAM-LIST"
+
+
+RULES = [trig_domain, arg_pairing, affine_kinds, sign_flows, circumcentre, reflex_decision, reflex_midpoint, adjust_only_when_needed, validity_tolerance, no_memo, edge_ends, arguments_untouched, collinearity_scale_free, beam_list]
